@@ -1,7 +1,6 @@
 // C07: range lemmas over the closed forms (the clauses on the real last()/update() are the [R]/range obligations in the view modules)
 use crate::props::c00_affine::*;
 use crate::props::c00_window::*;
-use crate::props::c04_averages::*;
 
 // ---------- NET in [-1, 1]: |sum of pair signs| <= number of pairs ----------
 pub proof fn lemma_kendall_inner_bound(xs: Seq<T>, c: int, m: int)
@@ -11,24 +10,11 @@ pub proof fn lemma_kendall_inner_bound(xs: Seq<T>, c: int, m: int)
 {
     if m > 1 { lemma_kendall_inner_bound(xs, c, m - 1); }
 }
-pub open spec fn pairs(m: int) -> real decreases m { if m <= 2 { 0real } else { pairs(m - 1) + ((m - 2) as real) } }   // sum_{c=2}^{m-1} (c-1)
 pub proof fn lemma_kendall_outer_bound(xs: Seq<T>, m: int)
     ensures -pairs(m) <= kendall_outer(xs, m) <= pairs(m)
     decreases m
 {
     if m > 2 { lemma_kendall_outer_bound(xs, m - 1); lemma_kendall_inner_bound(xs, m - 1, m - 1); }
-}
-pub proof fn lemma_pairs_closed(m: int)
-    requires m >= 2
-    ensures pairs(m) * 2real == ((m - 1) as real) * ((m - 2) as real)
-    decreases m
-{
-    if m > 2 {
-        lemma_pairs_closed(m - 1);
-        let k = (m - 2) as real;
-        assert((m - 1) as real == k + 1real); assert((m - 3) as real == k - 1real);
-        assert((k + 1real) * k == k * (k - 1real) + 2real * k) by(nonlinear_arith);
-    } else { assert(1real * 0real == 0real) by(nonlinear_arith); }
 }
 pub proof fn lemma_net_range(w: Seq<T>)
     requires w.len() >= 2
